@@ -38,7 +38,8 @@ def rows(tier):
                               "disparity": d, "mark_truncate": mt, "maxmark": maxmark, "mult": mult, "breaks": breaks})
     if tier == "quick":
         add("1D-k3-L2", (3,), 2, (1, 2, 3), ("inf", 1, 2), (False, True))
-        add("1D-k2-L3", (2,), 3, (1, 2), ("inf", 1, 2))
+        add("1D-k2-L3", (2,), 3, (1, 2), ("inf", 1))
+        add("1D-k2-L3", (2,), 3, (2,), (2,))
         add("2D-2x1-L2", (2, 1), 2, (1, 2), ("inf", 1))
         add("2D-2x2-L1", (2, 2), 1, (1, 2, (2, 1)), ("inf", 1), (False, True))
         # coarse knot vectors with repeated interior knots (multiplicity 2)
@@ -575,19 +576,25 @@ def run(ctx):
     out = Outcome()
     cap = 3000 if ctx.tier == "quick" else 100000
     allrows = rows(ctx.tier)
-    small = [c for c in allrows if c["row"] not in BIG_ROWS]
-    big = [c for c in allrows if c["row"] in BIG_ROWS]
+    # rows with thousands of transitions are explored with the frontier split over all workers (better balance than
+    # one row per worker); in the quick tier these run to closure, the cap only concerns the thorough-only rows
+    wide = BIG_ROWS
+    small = [c for c in allrows if c["row"] not in wide]
+    # heaviest rows first (one row per worker, dealt round-robin): the wall time is the longest worker's sum
+    weight = {"1D-k2-L3": 100, "2D-2x1-L2": 60, "1D-k4-L2": 40, "2D-2x1-L2-graded": 60, "2D-2x1-L2-m2": 60}
+    small.sort(key=lambda c: -weight.get(c["row"], 1))
+    big = [c for c in allrows if c["row"] in wide]
     # small rows: one row per worker (explored serially inside); big rows: frontier split over workers
     results = par.pmap(_row_worker, [(c, cap) for c in small], min_parallel=2, chunk=1)
     # big rows are explored breadth-first up to a state cap (reported as a cap in the evidence when it is hit: everything
     # up to the reported depth is covered completely)
     cap_big = int(os.environ.get("VERIF_C04_BIGCAP", "12000"))
     for cfg in big:
-        g = state_graph(cfg, cap=cap_big)
+        g = state_graph(cfg, cap=cap_big if cfg["row"] in BIG_ROWS else cap)
         results.append((cfg, g))
         if not g.closed:
-            out.caps_hit.append("%s: state cap %d hit at depth %d" % (row_name(cfg), cap_big, g.max_depth))
-        ctx.log("big row %s done" % row_name(cfg))
+            out.caps_hit.append("%s: state cap %d hit at depth %d" % (row_name(cfg), cap_big if cfg["row"] in BIG_ROWS else cap, g.max_depth))
+        ctx.log("wide row %s done" % row_name(cfg))
     for cfg, g in results:
         out.states += g.states
         out.transitions += g.transitions
@@ -595,7 +602,7 @@ def run(ctx):
         out.part(cfg["row"], configs=1, states=g.states, transitions=g.transitions)
         out.nontrivial.add(row_name(cfg))
         out.outcomes.add((cfg["row"], g.states))
-        if not g.closed and cfg["row"] not in BIG_ROWS:
+        if not g.closed and cfg["row"] not in wide:
             out.caps_hit.append("%s: state cap %d hit at depth %d" % (row_name(cfg), cap, g.max_depth))
         for kind, hist, ev, (key, msg) in g.problems:
             h = list(hist) + ([ev] if ev is not None else [])
